@@ -8,6 +8,9 @@ ASSUMPTIONS = C03.ASSUMPTIONS + [
     "i - base', every earlier bit keeps its absolute index and pins, missing bits are present and empty; any arrival order follows by "
     "induction; stubs: separate_name_and_index (decided by the E2 kernels) and definition.get_cables (C10/C13 contract); a second net "
     "for the bus's current lowest bit (a duplicate) is outside",
+    "E1 lemma: EdifParser.parse_design over a symbolic netlist of two libraries (2 + 1 cells; identifiers unique per scope, display "
+    "names symbolic and independent of the identifiers): the top instance is an instance of the cell carrying the cellRef identifier "
+    "in the library carrying the libraryRef identifier; token glue stubbed; a design naming an undeclared cell is outside (malformed file)",
 ]
 
 
@@ -16,4 +19,6 @@ def jobs(tier):
     for w in (1, 2, 3):
         out.append(dict(name="C05/multibit_add_cable{width=%d}" % w, engine="E1/symheap", module="vf.e1.edif_jobs",
                         func="multibit_job", timeout=1500, args=dict(width=w, tier=tier)))
+    out.append(dict(name="C05/parse_design", engine="E1/symheap", module="vf.e1.edif_jobs",
+                    func="design_job", timeout=900, args=dict(tier=tier)))
     return out
